@@ -54,6 +54,28 @@ CLAIMED["C10"] = (
     "DESIGN.md §5 C10",
 )
 
+CLAIMED["C01"] = (
+    "model_checking",
+    "explicit-state BFS over the real export pipeline with a LIVE observing session (PeerSession::run over loopback TCP), differential oracle against a brand-new session on a replica daemon",
+    "Every history up to the depth bound of announce / withdraw / peer-down (with and without GR) / LLGR start / stale purge / next-hop flap / export-policy swap / soft_reset_out / ROUTE-REFRESH events from two peers, the local source and the neighbour itself, with an explicit sync op controlling when the observing session delivers and flushes (batched vs one-by-one delivery), is executed against the real TableManager + PeerSession::run + process_nlri_change + PendingTx + flush_tx + encoder; at every sync the neighbour's mirror Adj-RIB-In decoded from the received bytes must equal the mirror of a brand-new session with identical parameters from the same address on a replica daemon rebuilt by replaying the RIB ops, and contain only prefixes the RIB still has. Configurations: observer role (eBGP, iBGP, RR client, RS client), add-path send-max 1/2, 1/2 shards, op packs for destination-id re-use, multi-source/best-change/add-path window, GR/LLGR + policy.",
+    "Producers are serialised (direct TableManager calls; shard locks make them atomic); the registration race is covered by C18's scheduler harness. The bytes are decoded with the repository's parser under the neighbour's codec. An export-policy change is always followed by a soft reset / route refresh before views are compared. TCP partial writes are not varied. Two add-path re-advertisement defects are recorded as known findings.",
+    "DESIGN.md §5 C01",
+)
+CLAIMED["C16"] = (
+    "model_checking",
+    "explicit-state BFS over connect/disconnect/enable/disable/delete histories against the real accept_connection + session tasks; bounded-exhaustive enumeration of capability-list pairs through negotiate / PeerFsm / negotiate_gr",
+    "(i) All histories up to the depth bound of TCP connects (passive and active role; from the static neighbour's address, an address inside a dynamic prefix, another address), disconnects, enable / disable / delete, for 3 configurations (static only with prefix limit; admin-down static + route-server dynamic group with GR and hold time; overlapping dynamic prefixes + RR-client group + confederation): admission verdict of accept_connection, nothing written before a refusal, role / hold time / local AS / families / GR capability / prefix limits of the session as seen in the OPEN it sends, Global.peers and connection slots after every step (dynamic neighbours disappear with their last connection). (ii) Every ordered pair of capability lists from two complete menus (per-family absent / MP / add-path modes 0-4, conflicting duplicate add-path entries, AS4, extended message, unknown capability; GR flag/family lists x LLGR lists) goes through OPEN encode->decode and PeerCodec::negotiate in both directions: mirror-image families / add-path directions / extended message / AS width, PeerFsm's effective send-max vs the codec, GR / LLGR / N-bit in force iff both advertised.",
+    "Overlapping dynamic prefixes: any matching group is accepted (the statement requires a matching prefix, not a priority). codec/FSM lists and GR/LLGR lists are enumerated as two independent products because negotiate() never reads GR/LLGR and negotiate_gr/llgr read nothing else. Sessions are not driven beyond the daemon's OPEN in part (i).",
+    "DESIGN.md §5 C16",
+)
+CLAIMED["C18"] = (
+    "exploration",
+    "stateless schedule exploration of real OS threads running real TableManager methods under a baton scheduler, iterative preemption bounding",
+    "All schedules with at most 2 (thorough 3) preemptions of subscribe(snapshot) against concurrent insert / remove / replace on the same and on another shard, peer drop + PeerDown, and soft_reset_in under a changed import policy; scheduling points are cfg-guarded hooks before every shard lock and around every subscribers.load()/rcu(). After every complete execution fold(snapshot + live events) must equal the pre- and post-policy Adj-RIB-In of all shards; every failing schedule is re-executed and must fail identically before it is believed.",
+    "std::sync::Mutex, arc-swap and tokio channels are trusted to be linearizable at hook granularity (no weak-memory exploration). 'Peer-down only after peer-up' is not asserted at this level (the initial PeerUp burst is produced by the BMP client from Global.peers). The run is time-capped (hand-offs between OS threads are slow on a loaded machine); the evidence states which preemption bound was completed per scenario.",
+    "DESIGN.md §5 C18",
+)
+
 REASON_NOT_YET = "no check registered yet in this revision (machinery for it is designed in DESIGN.md §5 but not built/validated); not claimed"
 
 ALL = ["C%02d" % i for i in range(1, 21)]
